@@ -56,7 +56,7 @@ def _dtype_p(p):
 def gen(E, p):
     import z3
     op = p["op"]
-    minlen = 1 if op in ("argmax", "argmin", "mean") or (op in ("max", "min") and not p.get("empties")) else 0
+    minlen = 1 if op == "mean" or (op in ("max", "min", "argmax", "argmin") and not p.get("empties")) else 0
     R = E.concretize(E.int("R", p.get("Rmin", 0), p["R"]))
     lens = [E.int(f"l{r}", minlen, p["L"]) for r in range(R)]
     if p.get("empties"):
@@ -157,16 +157,30 @@ def sym(E, p, kf):
             for q in range(S):
                 conds.append(z3.Implies(g == q, z3.And(*[z3.Not(better(data[t], data[q])) for t in range(S)] + [better(data[q], data[t]) for t in range(q)])))
             return dict(goal=specs.conj(conds), got=got, case=case)
-        if got["k"] != "array" or got["shape"] != ([R, 1] if p.get("keepdims") else [R]):
-            return dict(goal=False, got=got, case=case)
-        for r in range(R):
-            g = specs.I(got["flat"][r])
-            conds += [g >= 0, g < lens[r]]
+        def row_ok(g, r):
+            g = specs.I(g)
+            cs = [g >= 0, g < lens[r]]
             for q in range(S):
                 here = z3.And(starts[r] <= q, q < starts[r] + lens[r], g == q - starts[r])
                 best = [z3.Implies(z3.And(starts[r] <= t, t < starts[r] + lens[r]), z3.Not(better(data[t], data[q]))) for t in range(S)]
                 first = [z3.Implies(z3.And(starts[r] <= t, t < q), better(data[q], data[t])) for t in range(q)]
-                conds.append(z3.Implies(here, z3.And(*(best + first))))
+                cs.append(z3.Implies(here, z3.And(*(best + first))))
+            return z3.And(*cs)
+        if got["k"] != "array" or len(got["shape"]) != (2 if p.get("keepdims") else 1) or (p.get("keepdims") and got["shape"][1] != 1):
+            return dict(goal=False, got=got, case=case)
+        n = got["shape"][0]
+        if not p.get("empties"):
+            if n != R:
+                return dict(goal=False, got=got, case=case)
+            conds += [row_ok(got["flat"][r], r) for r in range(R)]
+        else:
+            # empty rows present: "for every non-empty row".  Two result layouts say that: one entry per row (entries of empty rows
+            # unconstrained), or one entry per non-empty row, in row order (what the library returns)
+            aligned = z3.And(*[z3.Implies(lens[r] > 0, row_ok(got["flat"][r], r)) for r in range(R)]) if n == R else z3.BoolVal(False)
+            rank = [z3.Sum([z3.If(lens[t] > 0, 1, 0) for t in range(r)]) if r else z3.IntVal(0) for r in range(R)]
+            count = z3.Sum([z3.If(l > 0, 1, 0) for l in lens])
+            compact = z3.And(count == n, *[z3.Implies(z3.And(lens[r] > 0, rank[r] == j), row_ok(got["flat"][j], r)) for r in range(R) for j in range(min(n, r + 1))])
+            conds.append(z3.Or(aligned, compact))
         after = common.cells(ra.ravel())
         conds += [specs.eqv(a, b) for a, b in zip(after, data)]
         return dict(goal=specs.conj(conds), got=got, case=case)
@@ -261,8 +275,10 @@ def conc(case):
     if case["via"] in ("none", "npnone"):
         exp = common.ref_scalar(_pyfold(case["op"], [c for r in rows for c in r], dt), "*")
     else:
-        vals = [(_pyfold(case["op"], r, dt) if (r or case["op"] not in ("max", "min")) else "?") for r in rows]
-        exp = common.ref_array(vals, [len(rows), 1] if case["keepdims"] else [len(rows)], rd)
+        vals = [(_pyfold(case["op"], r, dt) if (r or case["op"] not in ("max", "min", "argmax", "argmin")) else "?") for r in rows]
+        if case["op"] in ("argmax", "argmin") and "?" in vals and not (got["k"] == "array" and got["shape"][0] == len(rows)):
+            vals = [v for v in vals if v != "?"]      # one entry per non-empty row, in row order
+        exp = common.ref_array(vals, [len(vals), 1] if case["keepdims"] else [len(vals)], rd)
     # C05 claims the numbers; the element type of the result is C04's subject and not compared here
     if case["op"] == "mean":
         return got, exp, {"float_eq": True}
@@ -304,6 +320,7 @@ def jobs(tier, seed):
         out.append(dict(base, op=op, via="np", Rmin=1, **(dict(R=2, L=2) if q else small)))
         out.append(dict(base, op=op, via="none", Rmin=1, R=2, L=3))
         out.append(dict(base, op=op, via="method", keepdims=True, Rmin=1, **(dict(R=2, L=2) if q else small)))
+        out.append(dict(base, op=op, via="method", Rmin=1, empties=True, R=3, L=2))
     for op in ("max", "min"):
         out.append(dict(base, op=op, via="method", Rmin=1, empties=True))
         out.append(dict(base, op=op, via="reduce", Rmin=1, empties=True, R=3))
